@@ -335,6 +335,97 @@ def run_events(args):
     return out
 
 
+def run_future_deque(args):
+    """C15 slice: waker metadata protocol of future_deque (one slot, deque owner thread || waker thread)."""
+    from mirproto import future_deque_model as FD
+    t0 = time.time()
+    sc_ = json.loads(args.programs)
+    fut, own, wk = sc_[:3]
+    wdata = sc_[3] if len(sc_) > 3 else None
+    own = [tuple(x) if isinstance(x, list) else x for x in own]
+    out = dict(scenario=FD.prog_name((fut, own, wk, wdata)), prop=args.prop, verdict=None, queries=[])
+    try:
+        funcs, cfg, find, init = FD.load(args.mir, REPO, fut, wdata)
+        threads, k = FD.build_scenario(cfg, find, own, wk)
+    except A.Unsupported as e:
+        out.update(verdict="unsupported", detail=str(e))
+        return out
+    if args.cmd == "automata":
+        for t, th in enumerate(threads):
+            print("thread", t, "entry", th["entry"], "k", k)
+            for nid, n in th["nodes"].items():
+                print("  ", nid, {a: b for a, b in n["op"].items() if a not in ("next_bb", "dst", "argvals")}, "->", n["succ"])
+        return out
+    out["k_longest_path"] = k
+    k = min(k, args.kcap)
+    if args.k:
+        k = args.k
+    for th in threads:
+        if th["entry"] == "END":
+            th["entry"] = E.END
+    nwakes = len([x for x in wk if x in ("wake", "wake_by_ref")])
+    nops = 1 + nwakes
+    iv = dict(ref=init["ref"], act=init["act"], aw_id=FD.NOOP_ID)
+    enc = E.Encoder(threads, k, cells=(), locs=("ref", "act", "futn", "chan"), nops=nops, init_vals=iv)
+    enc.build()
+    out.update(k=k, nodes=[len(th["nodes"]) for th in threads], assertions=enc.n_assert, init=init,
+               functions=sorted({"%s:%s" % ((n["op"].get("line") or ("scripted-future", 0))[0], n["op"]["kind"]) for th in threads for n in th["nodes"].values()}))
+    F = enc.final()
+    done = enc.done()
+    T = len(threads)
+    wlive = FD.holds_ref_at_end(wk)
+    polls = [x for x in own if isinstance(x, tuple) and x[0] == "poll"]
+    k_last = int(polls[-1][1]) if polls else 0
+    dlive = z3.If(F.outcome == E.BV8(12), E.BV8(2), E.BV8(0))
+    live = dlive + E.BV8(wlive)
+    v = {}
+    v["panic / unreachable arm, counter out of range, mutex or waker bookkeeping misuse"] = z3.And(F.bad != E.N(0), F.bad != E.N(E.BAD_AFTER_RELEASE))
+    v["waker metadata accessed after its pool slot was released"] = F.bad == E.N(E.BAD_AFTER_RELEASE)
+    v["metadata slot released without happens-before from the other thread's last access"] = F.race == E.N(E.RACE_RELEASE)
+    v["reference count does not equal the live references / slot not released exactly when the last reference goes"] = z3.Or(
+        F.curL["ref"] != live, F.cnt["released"] != z3.If(live == E.BV8(0), E.N(1), E.N(0)))
+    v["parent waker clones not dropped exactly once"] = z3.Or(F.cnt["clones"] != F.cnt["wdrops"], *[F.hand[t] != 0 for t in range(T)])
+    started = [F.status[E_] != E.BV8(0) for E_ in range(1, nops)]
+    late = [z3.And(started[j], z3.UGT(F.inv[1 + j], F.inv[0])) for j in range(nwakes)]
+    if nwakes and k_last:
+        woke_last = z3.Or(*[z3.And(late[j], F.res[1 + j] == E.BV8(k_last)) for j in range(nwakes)])
+        v["lost wake-up: woken after the future's last poll, yet the slot is not marked activated or the deque's latest task waker was not invoked"] = z3.And(
+            F.outcome == E.BV8(12), z3.Or(*late), z3.Not(z3.And(F.curL["act"] == E.BV8(1), woke_last)))
+    nstarted = sum([z3.If(c, E.BV8(1), E.BV8(0)) for c in started], E.BV8(0))
+    v["contained future polled although it was neither just inserted nor woken"] = z3.UGT(F.curL["futn"], E.BV8(1) + nstarted)
+    tq = time.time()
+    r, m = enc.check(done, timeout_s=args.timeout)
+    out["queries"].append(dict(q="witness: a complete run exists", result=str(r), s=round(time.time() - tq, 2)))
+    if r != z3.sat:
+        out.update(verdict="vacuous" if r == z3.unsat else "timeout", detail="no complete run within k=%d" % k)
+        return out
+    if nwakes and k_last and "ready" not in fut and "drop" not in own:
+        tq = time.time()
+        r, m = enc.check(done, z3.Or(*late), F.outcome == E.BV8(12), timeout_s=args.timeout)
+        out["queries"].append(dict(q="witness: a wake after the future's last poll exists", result=str(r), s=round(time.time() - tq, 2)))
+        if r != z3.sat:
+            out.update(verdict="vacuous" if r == z3.unsat else "timeout", detail="the lost-wake-up monitor's antecedent is unreachable")
+            return out
+    tq = time.time()
+    r, m = enc.check(done, z3.Or(*v.values()), timeout_s=args.timeout)
+    out["queries"].append(dict(q="violation of %s at quiescence" % args.prop, result=str(r), s=round(time.time() - tq, 2)))
+    if r == z3.unknown:
+        out.update(verdict="timeout", detail="solver gave up (%ss)" % args.timeout)
+    elif r == z3.unsat:
+        out.update(verdict="holds")
+    else:
+        ev = lambda x: m.eval(x, model_completion=True)
+        labels = [lab for lab, e in v.items() if z3.is_true(ev(e))]
+        fin = dict(bad=ev(F.bad).as_long(), race=ev(F.race).as_long(), ref_count=ev(F.curL["ref"]).as_long(), activated=ev(F.curL["act"]).as_long(),
+                   future_polls=ev(F.curL["futn"]).as_long(), owner_refs_live=ev(dlive).as_long(), waker_thread_refs_live=wlive, parent_waker=ev(F.aw_id).as_long(),
+                   woken_mask=ev(F.woken).as_long(), last_future_poll_step=ev(F.inv[0]).as_long(),
+                   wakes=[dict(started=str(ev(started[j])), swap_step=ev(F.inv[1 + j]).as_long(), parent_invoked=ev(F.res[1 + j]).as_long()) for j in range(nwakes)],
+                   counts={k_: ev(v_).as_long() for k_, v_ in F.cnt.items()})
+        out.update(verdict="violation", labels=labels, trace=enc.trace(m), final=fin)
+    out["wall_s"] = round(time.time() - t0, 2)
+    return out
+
+
 def main():
     ap = argparse.ArgumentParser()
     ap.add_argument("cmd", choices=["scenario", "fingerprint", "automata"])
@@ -366,6 +457,14 @@ def main():
         return
     if args.cmd == "scenario" and args.model in ("events_auto", "events_manual"):
         print(json.dumps(run_events(args)))
+        return
+    if args.model == "future_deque":
+        if args.cmd == "fingerprint":
+            print(json.dumps({"future_deque": "interpreted-from-mir"}))
+            return
+        r_ = run_future_deque(args)
+        if args.cmd == "scenario":
+            print(json.dumps(r_))
         return
     if args.cmd == "fingerprint":
         # events_once has no hand-modelled code any more: the endpoint wrappers are interpreted from
